@@ -6,11 +6,11 @@ import json, os, subprocess, sys
 ROOT = os.path.dirname(os.path.dirname(os.path.abspath(__file__)))
 
 CHECKS = {
- "C01": ("exploration", "refmodel-diff", "differential testing of every backend and seeded compositions against a reference blob map over generated receive/fetch/subfetch/stat/enumerate/remove/reopen histories, with full audits (all cursors x page sizes)",
+ "C01": ("exploration", "refmodel-diff", "differential testing of every backend and seeded compositions against a reference blob map over generated receive/fetch/subfetch/stat/enumerate/remove/reopen histories, with full audits (all cursors x page sizes); broken-source receives aimed at removed blobs over overlay tombstones",
          "Held on the generated histories only; reference model is a Go map written from the property statement; enumeration cursors and page sizes are a generated family, not all strings."),
  "C02": ("exploration", "refmodel-diff", "hostile (ref, bytes, reader) inputs through blobserver.Receive, PUT and multipart handlers and self-verifying stores, with a no-trace monitor (fetch/stat/enumerate/hub listeners) after every rejected attempt",
          "Inputs are generated mutation families of true blobs; 16 MiB boundary exercised on a subset of backends."),
- "C03": ("fault_enumeration", "crash-materialise", "crash-state materialisation (every VFS-call prefix for files; every append prefix / removal subset for diskpacked) + restart + audit against the acknowledged-ops journal + reindex from packs alone",
+ "C03": ("fault_enumeration", "crash-materialise", "crash-state materialisation (every VFS-call prefix for files; every append prefix / removal subset for diskpacked) + restart + audit against the acknowledged-ops journal + reindex from packs alone; failing-fsync family (an acknowledged blob is owed intact after the crash)",
          "Power-loss states are a model of what a kernel may persist; process-kill states are real."),
  "C04": ("fault_enumeration", "fault-freeze", "freeze (fail-stop) at every lower-layer call of a pack followed by restart in each recovery mode, with a client-view audit at every intermediate step",
          "Lower layers are harness-owned memory stores/KVs whose durable state survives the simulated crash; files are generated."),
@@ -18,33 +18,33 @@ CHECKS = {
          "Sampled schedules for larger sets; row dump taken after out-of-order indexing quiesces (hook)."),
  "C06": ("exploration", "refmodel-diff", "differential: live index+corpus vs a fresh index+corpus opened over the same rows, at prefixes of arrival histories, over a grid of lookups",
          "Query grid is finite; sampled histories."),
- "C07": ("exploration", "refmodel-diff", "reference claim-folding model vs corpus (incremental and loaded), index rows, describe and query at a grid of times and signers",
+ "C07": ("exploration", "refmodel-diff", "reference claim-folding model vs corpus (incremental and loaded), index rows, describe and query at a grid of times and signers, incl. one key stored as two key blobs",
          "Dates distinct within a permanode; model written from doc/schema/{permanode,delete}.md."),
- "C08": ("exploration", "refmodel-diff", "reference query evaluator + cross-sort/cross-mode metamorphic check over generated worlds and constraint trees, planner paths observed through a hook",
+ "C08": ("exploration", "refmodel-diff", "reference query evaluator + cross-sort/cross-mode metamorphic check over generated worlds and constraint trees, planner paths observed through a hook; multi-signer worlds",
          "Evaluator covers the fragment listed in DESIGN A.2."),
  "C09": ("exploration", "refmodel-diff", "follow continuation tokens to exhaustion and compare the concatenation with the unlimited result; around-queries must be contiguous windows containing the pivot",
          "Worlds generated with tied / pre-1970 / sub-second times."),
- "C10": ("exploration", "refmodel-diff", "differential testing of each sorted.KeyValue against a byte-ordered map model over generated histories incl. batches, finds, limits, reopen; batch unity under injected failure and concurrent readers",
+ "C10": ("exploration", "refmodel-diff", "differential testing of each sorted.KeyValue against a byte-ordered map model over generated histories incl. batches, finds, limits, reopen; batch unity under injected failure and concurrent readers (paired-key finds; generation-stamped batches vs successive Gets on memory and buffer)",
          "Implementations available offline: memory, leveldb, kvfile, sqlite, buffer."),
- "C11": ("fault_enumeration", "fault-freeze", "leak scan of everything stored below the encrypt store; exhaustive/seeded tamper enumeration with an exact-or-error oracle; meta-index loss and compaction restarts",
+ "C11": ("fault_enumeration", "fault-freeze", "leak scan of everything stored below the encrypt store; exhaustive/seeded tamper enumeration with an exact-or-error oracle; meta-index loss and compaction restarts; start-up scan faults by error kind",
          "Leak scan looks for 12-byte plaintext windows, ref text, hex and raw digests."),
  "C12": ("fault_enumeration", "fault-freeze", "every assignment of {ok,error,wrong-size,lost-ack,slow} to replicas per receive (exhaustive n<=3) with an event monitor counting durable stores at ack time; read overlap patterns",
          "Slow replicas are gated and released in enumerated orders."),
- "C13": ("fault_enumeration", "fault-freeze", "single-fault enumeration: error at the k-th lower-layer call of every operation of a history, then healthy continuation + recovery, judged by a maybe-map oracle; gate-leak repetition",
+ "C13": ("fault_enumeration", "fault-freeze", "single-fault enumeration: error at the k-th lower-layer call of every operation of a history, then healthy continuation + recovery, judged by a maybe-map oracle; acknowledged-remove probe; gate-leak repetition",
          "Lower layers are harness-owned wrappers; bursts are sampled."),
  "C14": ("exploration", "history-lin+go-race", "porcupine linearizability check of recorded client-boundary histories (partitioned per blobref) under perturbed schedules, built with -race; race reports with perkeep frames are violations",
          "Schedules are sampled, not enumerated; a clean race-detector run is not race freedom."),
- "C15": ("exploration", "refmodel-diff", "round-trip of generated contents/reader shapes through the file writer/reader with structural checks; generated part trees read at every boundary vs a bytes interpreter; static-set splits vs member lists",
+ "C15": ("exploration", "refmodel-diff", "round-trip of generated contents/reader shapes through the file writer/reader with structural checks; generated part trees read at every boundary vs a bytes interpreter; static-set splits vs member lists; parallel ReadAt on one reader in a child process",
          "Generated inputs only."),
- "C16": ("exploration", "refmodel-diff", "position-exhaustive single-byte mutation of signed documents with a signed-payload ledger oracle",
+ "C16": ("exploration", "refmodel-diff", "position-exhaustive single-byte mutation of signed documents with a signed-payload ledger oracle; format-sensitive payloads through every signing path",
          "Two test key rings; mutation alphabet of 4 substitutions per position."),
- "C17": ("exploration", "refmodel-diff", "exhaustive via-chains up to length 3 over generated stores vs a share-reachability model; unauthenticated request table against in-process servers",
+ "C17": ("exploration", "refmodel-diff", "exhaustive via-chains up to length 3 over generated stores vs a share-reachability model; unauthenticated request table against in-process servers; stepwise tied-date deletion histories",
          "Chains bounded at 3 hops; servers built in-process from high-level configs."),
  "C18": ("exploration", "refmodel-diff", "protocol histories through pkg/client and raw HTTP against in-process servers vs the reference map",
          "Configurations constructible offline."),
  "C19": ("fault_enumeration", "fault-freeze", "event monitor (dequeue only after destination ack) over wrapper logs + bounded-progress delivery check under enumerated faults and handler restarts",
          "Eventuality restated as bounded progress in sync-loop iterations."),
- "C20": ("exploration", "refmodel-diff", "exhaustive enumeration of short strings over a ref-shaped alphabet plus structured and seeded refs, checked against independent text/ordering/hash oracles",
+ "C20": ("exploration", "refmodel-diff", "exhaustive enumeration of short strings over a ref-shaped alphabet plus structured and seeded refs, checked against independent text/ordering/hash oracles, sequentially and from parallel goroutines",
          "Exhaustive only up to the stated length bounds; crypto/* trusted as hash definitions."),
 }
 
